@@ -1425,6 +1425,93 @@ func c13GenFmt(r *kit.Rand, i int) c13Fmt {
 
 // ---------------------------------------------------------------------------
 
+// ---------------------------------------------------------------------------
+// Near-overflow magnitudes ("any magnitude"): the assume-nothing centre must
+// be the sample median also where sums or differences of two sample values
+// leave the float64 range. Judged exactly in big.Rat.
+
+// c13HugeMedianSig is the recorded finding: go-moremath's Quantile
+// interpolates as lo + frac*(hi-lo); when hi-lo overflows (the two order
+// statistics around the median position have opposite signs and huge
+// magnitudes) the centre becomes +-Inf (even n) or NaN (odd n: 0*Inf).
+const c13HugeMedianSig = "median-interpolation-overflow"
+
+func c13CheckHuge(c c13Sum) *kit.Fail {
+	n := len(c.Vals)
+	if n < 1 || n > 70 || !(c.Conf > 0 && c.Conf < 1) {
+		return nil
+	}
+	for _, v := range c.Vals {
+		if math.IsNaN(v) || math.IsInf(v, 0) {
+			return nil
+		}
+	}
+	thr := benchmath.DefaultThresholds
+	s := benchmath.NewSample(c13Copy(c.Vals), &thr)
+	sm := benchmath.AssumeNothing.Summary(s, c.Conf)
+	sorted := c13Sorted(c.Vals)
+	var med *big.Rat
+	var a, b float64 // the order statistics the library interpolates between
+	if n%2 == 1 {
+		med = c13Rat(sorted[n/2])
+		a, b = sorted[n/2], sorted[n/2]
+		if n >= 3 {
+			b = sorted[n/2+1]
+		}
+	} else {
+		a, b = sorted[n/2-1], sorted[n/2]
+		med = new(big.Rat).Add(c13Rat(a), c13Rat(b))
+		med.Quo(med, big.NewRat(2, 1))
+	}
+	want, _ := med.Float64()
+	desc := fmt.Sprintf("nothing n=%d conf=%v summary={Center:%v Lo:%v Hi:%v} middle order statistics %v, %v", n, c.Conf, sm.Center, sm.Lo, sm.Hi, a, b)
+	tol := 1e-13 * math.Max(math.Abs(a), math.Abs(b))
+	if !(math.Abs(sm.Center-want) <= tol) {
+		sig := "centre-not-median"
+		if math.IsInf(b-a, 0) && (math.IsInf(sm.Center, 0) || math.IsNaN(sm.Center)) {
+			sig = c13HugeMedianSig
+		}
+		return kit.Failf(sig, "%s: the median is %v", desc, want)
+	}
+	if math.IsNaN(sm.Lo) || math.IsNaN(sm.Hi) || !(sm.Lo <= sm.Center && sm.Center <= sm.Hi) {
+		return kit.Failf("not-bracketing", "%s", desc)
+	}
+	kit.Count("C13 medians of near-overflow samples checked exactly", 1)
+	return nil
+}
+
+func c13GenHuge(r *kit.Rand, i int) c13Sum {
+	n := r.Range(1, 12)
+	if r.Chance(0.3) {
+		n = r.Range(1, 70)
+	}
+	vals := make([]float64, n)
+	mode := r.Intn(4) // 0 positive, 1 negative, 2 mixed signs, 3 huge and ordinary mixed
+	for j := range vals {
+		v := math.MaxFloat64 * (0.3 + 0.7*r.Float64())
+		if r.Chance(0.2) {
+			v = math.MaxFloat64 * (0.95 + 0.05*r.Float64())
+		}
+		switch mode {
+		case 1:
+			v = -v
+		case 2:
+			if r.Bool() {
+				v = -v
+			}
+		case 3:
+			switch r.Intn(3) {
+			case 0:
+				v = -v
+			case 1:
+				v = r.LogUniform(-3, 6)
+			}
+		}
+		vals[j] = v
+	}
+	return c13Sum{Model: 0, Vals: vals, Conf: c13GenConf(r)}
+}
+
 func TestVerifC13(t *testing.T) {
 	sumRule := "samples of 1..70 finite values (benchmark-like positive, small integers with ties, mixed sign, zeros, 1e-100..1e100, negative, all equal, two values, distinct integers), " +
 		"confidence from a grid incl. coverage boundaries 1-2^(1-n), uniform in (0.001,0.999) and 1-10^-x; values handed to NewSample in random order; non-trivial = at least two values"
@@ -1451,6 +1538,9 @@ func TestVerifC13(t *testing.T) {
 		}
 	}
 	kit.Run(t, "C13",
+		kit.Class[c13Sum]{Name: "summary-nothing-near-overflow", Quick: 8000, Thorough: 300000, Gen: c13GenHuge, Check: c13CheckHuge,
+			NonTrivial: c13SumNonTrivial, MinNonTrivial: 5000,
+			Rule: "samples of 1..70 values with magnitudes in [0.3,1] x MaxFloat64 (20% within 5% of it): all positive, all negative, mixed signs, or mixed with ordinary magnitudes; the assume-nothing centre against the exact rational median (relative 1e-13), bracketing by the interval ends"},
 		sumClass("summary-nothing", 0, 40000, 1800000, 30000),
 		kit.Class[c13Sum]{Name: "summary-nothing-high-confidence", Quick: 12000, Thorough: 300000, Gen: c13GenSumHighConf, Check: c13CheckSummary,
 			NonTrivial: c13SumNonTrivial, MinNonTrivial: 9000,
